@@ -27,6 +27,30 @@ def ends(adt, suffix):
     return a == suffix or a.endswith("::" + suffix)
 
 
+def loop_form_alignment(F, fam):
+    """(body, push block, ok, why) for a `for k in keys { out.push(lookup(k)) }` loop in one of the functions, or None"""
+    for g in fam:
+        for b in F.group_bodies(g):
+            for (bi, t) in calls_matching(b, r"Vec(::<.*>)?::push$"):
+                if "Option<bytes::bytes::Bytes>" not in (b.local_ty(Slice(F, b).operand(t["args"][0]).seen and sorted(Slice(F, b).operand(t["args"][0]).seen)[0]) or "") and \
+                        not any("Option<bytes::bytes::Bytes>" in (b.local_ty(l) or "") for l in Slice(F, b).operand(t["args"][1]).seen):
+                    continue
+                h, early = loop_early_exits(F, b, bi)
+                if h is None:
+                    continue
+                it = Slice(F, b, through_calls=True).operand(b.term(h)["args"][0])
+                over_keys = any(x[0] == "param" for x in it.sources) or any(x[0] == "upvar" for x in it.sources)
+                el = b.term(h)["dest"]["l"]
+                vs = Slice(F, b, through_calls=True).operand(t["args"][1])
+                lookup = vs.has_call(LOOKUP) and el in vs.seen
+                body_entry = [y for y in b.succ(b.succ(h)[0]) ] if b.succ(h) else []
+                skip = must_pass(b, b.term(h)["t"], [h], [bi]) if b.term(h).get("t") is not None else None
+                ok = over_keys and lookup and not early and skip is None
+                why = "over the key parameter=%s, lookup by the loop key=%s, early exits=%d, iteration can skip the push=%s" % (over_keys, lookup, len(early), skip is not None)
+                return (b, bi, ok, why)
+    return None
+
+
 def api_positions(F, body, s):
     """positions (1-based, receiver counted) of the root function's parameters a slice derives from"""
     root = F.bodies[F.root_of[body.id]]
@@ -144,6 +168,16 @@ def run(ctx):
     for f0 in prod:
       fam = family(F, f0) if f0.crate == "d_engine_server" else [f0]
       cs_all = [(g, c) for g in fam for c in collects(F, g) if RESULT_VEC.search(c[4])]
+      if not cs_all:
+          # loop form of the same construction: `for k in keys { out.push(map.get(k).cloned()) }` - one push per iteration of a
+          # loop over the requested key slice, no way round the push, no early exit, the pushed value is a lookup by the loop's key
+          lf = loop_form_alignment(F, fam)
+          if lf is not None:
+              (lb, lbi, okl, why) = lf
+              ctx.check("C35-a", "%s#collect#shape" % fkey(f0), okl, "loop form: exactly one push per requested key, in key order (%s)" % why,
+                        "the per-key result vector is filled by a loop that does not push exactly one lookup result per requested key (%s)" % why, loc(lb, lbi))
+              n_aligned += 1
+              continue
       ctx.floor("C35-a", len(cs_all), 1, "%s: collect producing Vec<Option<..>>" % fkey(f0))
       for (f, (b, x, t, self_ty, fa)) in cs_all:
         kp = keys_position(F, f)
@@ -274,7 +308,21 @@ def run(ctx):
             ok = bool(tup) and all(Slice(F, y).operand(st["rv"]["ops"][0]).has_field("KvEntry", "key") and not Slice(F, y).operand(st["rv"]["ops"][0]).has_field("KvEntry", "value") for (y, st) in tup)
             ctx.check("C35-d", "%s#realign-map-key" % fkey(f), ok, "map keyed by entry.key",
                       "the realignment map is not keyed by the returned entry's `key` field: lookups by requested key miss or hit the wrong entry", loc(b, x))
-    ctx.floor("C35-d", n, 3, "realignment HashMap collects (embedded, standalone, gRPC)")
+    # loop form: `for e in entries { map.insert(e.key, e.value) }`
+    for f0 in prod:
+      for f in (family(F, f0) if f0.crate == "d_engine_server" else [f0]):
+        for b in F.group_bodies(f):
+            for (bi, t) in calls_matching(b, r"HashMap(::<.*>)?::insert$"):
+                if len(t["args"]) < 3 or loop_early_exits(F, b, bi)[0] is None:
+                    continue
+                ks, vs = Slice(F, b).operand(t["args"][1]), Slice(F, b).operand(t["args"][2])
+                if not (ks.has_field("KvEntry", "key") or ks.has_field("KvEntry", "value") or vs.has_field("KvEntry", "value")):
+                    continue
+                n += 1
+                ok = ks.has_field("KvEntry", "key") and not ks.has_field("KvEntry", "value")
+                ctx.check("C35-d", "%s#realign-map-key" % fkey(f), ok, "map keyed by entry.key (loop form)",
+                          "the realignment map is not keyed by the returned entry's `key` field: lookups by requested key miss or hit the wrong entry", loc(b, bi))
+    ctx.floor("C35-d", n, 3, "realignment HashMap collects / insert loops (embedded, standalone, gRPC)")
 
 
 def tuple_pairing(F, fp):
